@@ -1,0 +1,6 @@
+//go:build !verif
+// +build !verif
+
+package protocol
+
+func verifPoisonPage(*page) {}
